@@ -113,7 +113,8 @@ def compiled_fn(sp, e, IDX, what="value"):
         sp2 = Spec(ip2)
         # what the compiler contracts prove: the value is the denotation at every point of the expression's domain (outside
         # it NumPy produces inf/nan, which real arithmetic does not model: A1)
-        out = sym.fresh("compiled_out", sym.R)
+        # a compiled callable is a function of the tree, the point and the parameter store: the same call gives the same value
+        out = sym.fn("COMPILED_OUT", sym.Ref, sym.RealArr, sym.PVSort, sym.R)(sp2.ref(e), x.arr, sp2.PV)
         ip2.path.assume(z3.Implies(sp2.dom(e, ENV, sp2.PV), out == sp2.den(e, ENV, sp2.PV)))
         return SReal(out, "npfloat")
     return SpecFn(call, desc=f"compiled {what}", meta={"compiled_of": e})
